@@ -498,7 +498,7 @@ func runC12Full(c c12Full) string {
 	if c.At == 0 {
 		// dry run: count the backend calls the command makes on each tier
 		cl, _, _, done := serve("", 0)
-		cl.Timeout = 10 * time.Second
+		cl.Timeout = hangBound()
 		cl.Do(c.Cmd)
 		cl.Do(wire.Cmd{Kind: wire.Version})
 		n1, n2 := *lastCalls[0], *lastCalls[1]
@@ -532,10 +532,11 @@ func runC12Full(c c12Full) string {
 	var stream []byte
 	select {
 	case stream = <-rch:
-	case <-time.After(10 * time.Second):
+	case <-time.After(hangBound()):
+		noteHang()
 		cl.C.Close()
 		stream = <-rch
-		return fmt.Sprintf("after a failure (%s) underneath %s the connection was neither closed nor the following request answered within 10s (the client would wait forever); bytes received: %q", c.PKind, c.Cmd, stream)
+		return fmt.Sprintf("after a failure (%s) underneath %s the connection was neither closed nor the following request answered within the bound (the client would wait forever); bytes received: %q", c.PKind, c.Cmd, stream)
 	}
 	if c.PKind == "returned-error" {
 		// an error (not a panic) underneath: the request must end in an error reply
@@ -544,7 +545,8 @@ func runC12Full(c c12Full) string {
 		if !containsSentinel(stream, c.Binary) {
 			select {
 			case <-done:
-			case <-time.After(10 * time.Second):
+			case <-time.After(hangBound()):
+				noteHang()
 				return fmt.Sprintf("after a backend error underneath %s the connection was neither answered nor closed", c.Cmd)
 			}
 		} else {
@@ -576,8 +578,9 @@ func runC12Full(c c12Full) string {
 			if o.Class != wire.OK {
 				return fmt.Sprintf("second connection: set %q answered %s", k, o)
 			}
-		case <-time.After(5 * time.Second):
-			return fmt.Sprintf("second connection: set %q did not complete within 5s: the key lock was not released after the panic", k)
+		case <-time.After(hangBound()):
+			noteHang()
+			return fmt.Sprintf("second connection: set %q did not complete within the bound: the key lock was not released after the panic", k)
 		}
 	}
 	cl2.Close()
